@@ -19,6 +19,7 @@ import (
 	"image"
 	"image/color"
 	"os"
+	"runtime"
 	"sort"
 	"strconv"
 	"strings"
@@ -318,7 +319,9 @@ func scenarios() []scenario {
 	for _, sh := range []struct {
 		w, h, p int
 		inPlace bool
-	}{{5, 1, 2, true}, {5, 1, 2, false}, {7, 2, 3, true}, {5, 1, 4, true}, {1, 5, 2, true}, {7, 3, 4, false}} {
+	}{{5, 1, 2, true}, {5, 1, 2, false}, {7, 2, 3, true}, {5, 1, 4, true}, {1, 5, 2, true}, {7, 3, 4, false},
+		// one column, more rows than a plausible band or batch size (8, 16, 32) plus a remainder
+		{1, 17, 2, false}, {1, 35, 3, false}} {
 		sh := sh
 		out = append(out, scenario{fmt.Sprintf("image/linear.TransformImageColor halve %dx%d parallelism %d in place=%v", sh.w, sh.h, sh.p, sh.inPlace), par(func() string { return shaped(sh.w, sh.h, sh.p, sh.inPlace) })})
 	}
@@ -551,6 +554,15 @@ func runThreads(sc *scenario, results []string) {
 	wg.Wait()
 }
 
+// settle waits (up to 5 s) for goroutines the library started during an
+// unscheduled call to finish: a call that returns while its workers are still
+// running would otherwise have them run into the next, scheduled execution.
+func settle(base int) {
+	for i := 0; i < 5000 && runtime.NumGoroutine() > base; i++ {
+		time.Sleep(time.Millisecond)
+	}
+}
+
 // fresh restores first-use package state and rebuilds the scenario's shared objects.
 func fresh(sc *scenario) {
 	if !strings.HasPrefix(sc.name, "litmus/") { // litmus programs do not touch the library
@@ -632,9 +644,11 @@ func explore(sc *scenario, minBound int, budget time.Duration) report {
 	if w, ok := wants[sc.name]; ok {
 		copy(want, w) // threads that cannot run alone (litmus programs): expectation given
 	} else {
+		base := runtime.NumGoroutine()
 		for i := range sc.threads {
 			fresh(sc)
 			want[i] = sc.threads[i]()
+			settle(base)
 		}
 	}
 	outcomes := map[string]bool{}
